@@ -586,7 +586,9 @@ pub fn build_node(it: &J) -> P {
             let mut fields: Vec<P> = members.iter().filter(|m| m["kind"] != "pos").map(build_node).collect();
             fields.extend(members.iter().filter(|m| m["kind"] == "pos").map(build_node));
             let names = arr(&it["head"], "names");
-            let mut c = con(fields, false).to_options().command(leak(&dstr(names[0].as_str().unwrap())));
+            let op = con(fields, false).to_options();
+            let op = if b(&it["head"], "ftu") { op.fallback_to_usage() } else { op };
+            let mut c = op.command(leak(&dstr(names[0].as_str().unwrap())));
             for a in &names[1..] {
                 c = c.long(leak(&dstr(a.as_str().unwrap())));
             }
